@@ -40,6 +40,16 @@ CLAIMED = {
         technique="symbolic execution of both twins + z3 equivalence queries per path pair (rewriter / rational normal "
                   "form / NRA); counterexamples replayed on the compiled kernels and on the real pipeflow",
         design="4/C07"),
+    "C14": dict(
+        text="CrossHair executes the real init_options / _iteration_check / _mode_check / set_user_pf_options symbolically "
+             "(z3) on dict layers built from symbolic presence flags and values; for each key cluster the documented "
+             "precedence, the couplings (reuse only with update, 'all' -> sequential, numba fallback), carry-through of "
+             "unknown keys and non-mutation of defaults / user options are either confirmed over all paths or refuted "
+             "with concrete arguments (replayed in plain Python).",
+        technique="CrossHair symbolic execution (z3) of the real option-resolution code, per-condition verdicts",
+        engine="crosshair", design="4/C14",
+        note="CrossHair 0.0.110 + z3; values modelled as ints/bools; get_fluid stubbed; 'Not confirmed' is reported as "
+             "inconclusive, never as success"),
 }
 
 NOT_APPLICABLE = {
